@@ -35,6 +35,12 @@ def kOf (s : String) : Except String K :=
   | "imp" => pure .imp | "vol" => pure .vol | "u" => pure .u | "lat" => pure .lat | "fill" => pure .fill
   | _ => throw s!"unknown class {s}"
 
+def parseFlags (j : Json) : Except String Flags := do
+  let a ← j.getArr?
+  match a.toList with
+  | [a, b, c, d, e] => return ⟨← a.getBool?, ← b.getBool?, ← c.getBool?, ← d.getBool?, ← e.getBool?⟩
+  | _ => throw "flags: five booleans"
+
 def parseImpE (j : Json) : Except String ImpE := do
   return ⟨← (← j.getObjVal? "p").getNat?, ← getQ (← j.getObjVal? "v"), ← getNats (← j.getObjVal? "cl")⟩
 
@@ -48,13 +54,8 @@ def parseCell (j : Json) : Except String Cell := do
     ntr := ← (← j.getObjVal? "ntr").getBool?
     lat := ← getON (← j.getObjVal? "lat")
     fill := ← getON (← j.getObjVal? "fill")
-    fillComplex := ← (← j.getObjVal? "fill_complex").getBool? }
-
-def parseFlags (j : Json) : Except String Flags := do
-  let a ← j.getArr?
-  match a.toList with
-  | [a, b, c, d, e] => return ⟨← a.getBool?, ← b.getBool?, ← c.getBool?, ← d.getBool?, ← e.getBool?⟩
-  | _ => throw "flags: five booleans"
+    fillComplex := ← (← j.getObjVal? "fill_complex").getBool?
+    setIn := ← parseFlags (← j.getObjVal? "set_in") }
 
 def parseDI (j : Json) : Except String (Option K) :=
   if j.isNull then pure none else do return some (← kOf (← j.getStr?))
